@@ -260,7 +260,7 @@ def blackbox(v, wd, inputs, rnd, thorough):
     K = 6000
     sub = [{"ev": "hdr", "n": min(K, lines[0]["n"]), "hist": 2000}]
     for e in lines[1:]:
-        if e["ev"] == "gc":
+        if e["ev"] in ("gc", "gc_take"):
             continue        # history / alive counts refer to all contexts
         if e.get("id", 0) < K:
             sub.append(e)
